@@ -18,7 +18,9 @@ LEVEL = 'proof'
 PROPS_MODULES = ['RTV.Props.C11']
 GEN = ['chartables', 'durationmaps']
 REQUIRED_THEOREMS = ['format_date_wellformed', 'format_time_wellformed', 'format_datetime_wellformed', 'min_value_filtered',
-                     'assembly_wellformed_date', 'definite_timex_value_date', 'type_name_agrees']
+                     'assembly_wellformed_date', 'assembly_wellformed_time', 'assembly_wellformed_datetime',
+                     'period_wellformed_daterange', 'period_invalid_end_filtered', 'period_modifier_one_end',
+                     'definite_timex_value_date', 'type_name_agrees']
 RULE = ('every entity of recognize_datetime over all Python-supported DateTime Specs inputs (all cultures, own reference) and '
         'over generated English expressions × references in 1950..2090; non-trivial = distinct (culture, input, reference) '
         'that produced at least one entity with resolution values')
@@ -79,6 +81,27 @@ def unit_level(ctx):
                     out = 'err:' + type(e).__name__
                 lines.append('ressingle\t%s\t%s\t%s\t%s' % (cps(t), cps(slot.timex_str), cps(p), cps(f)))
                 expect.append(out)
+    # __add_period_to_resolution through _generate_from_resolution on period slots (incl. modifiers and invalid ends)
+    pvals = ['2019-05-05', '2019-05-09', '0001-01-01', '', None, '0001-01-01 00:00:00', '2019-05-05 10:00:00', '10:00:00']
+    keys = {'daterange': ('startDate', 'endDate'), 'timerange': ('startTime', 'endTime'),
+            'datetimerange': ('startDateTime', 'endDateTime')}
+    for t, (ks, ke) in keys.items():
+        for mod in ('', 'before', 'after', 'since', 'before-end', 'after-start', 'until', 'approx'):
+            for a in pvals:
+                for b in pvals:
+                    resol = {}
+                    if a is not None:
+                        resol[ks] = a
+                    if b is not None:
+                        resol[ke] = b
+                    try:
+                        out = parser._generate_from_resolution(t, resol, mod)
+                        f = lambda k: ('absent' if k not in out else ('null' if out[k] is None else cps(out[k])))
+                        exp = f('start') + '\t' + f('end')
+                    except Exception as e:
+                        exp = 'err:' + type(e).__name__
+                    lines.append('addperiod\t%s\t%s\t%s' % (cps(mod), '?' if a is None else cps(a), '?' if b is None else cps(b)))
+                    expect.append(exp)
     model = common.driver(lines)
     ctx.count('unit: format/determine/resolution', len(lines))
     for l, a, b in zip(lines, expect, model):
